@@ -2,13 +2,14 @@
 from __future__ import annotations
 
 import json
+import math
 import warnings
 from pathlib import Path
 
 import numpy as np
 
 from vp import refloss as ref
-from vp.core import LEAN, Check, f2h, lean_run
+from vp.core import LEAN, Check, f2h, h2f, lean_run
 
 MODULE = "BlackIt.Properties.C07"
 PROP_FILE = LEAN / "BlackIt/Properties/C07.lean"
@@ -60,6 +61,7 @@ def run(chk: Check):
                        "GSL-div for nb_values >= 10 conflates words (base-10 packing): known finding; the theorem covers nb_values <= 9"]
     chk.proof_stage(PROP_FILE)
     n_cases = 60 if chk.tier == "quick" else 900
+    model_lean = []
     filters_pool = [None, lambda x: x - np.mean(x), lambda x: np.asarray(x) * 2.0]
     for ci in range(n_cases):
         e, d = rng.randint(1, 5), rng.randint(1, 4)
@@ -108,6 +110,11 @@ def run(chk: Check):
                                             coordinate_weights=wnp).compute_loss(sim, real))
                     want = ref.fourier(sim, real, f, kind, weights)
                     opts = {"f": f, "kind": kind}; tol = 1e-9
+                    # the same value from the Lean model (BlackIt.Loss.fourierLoss, binary64 instance with a naive DFT), per coordinate
+                    if n <= 60:
+                        model_lean.append(("FourierLoss.compute_loss != BlackIt.Loss.fourierLoss (binary64 instance)", got, [1.0 / d] * d if weights is None else list(weights), case,
+                                             [f"loss.fourier {0 if kind == 'ideal' else 1} {f2h(f)} {e} {n} " + " ".join(f2h(x) for x in sim[:, :, i].reshape(-1)) + " "
+                                              + " ".join(f2h(x) for x in real[:, i]) for i in range(d)]))
                 elif which == "gsl":
                     nv = rng.choice([None, 2, 3, 5, 9, 10, 12, 20])
                     L = rng.choice([None, 1, 2, 3, 6])
@@ -118,6 +125,15 @@ def run(chk: Check):
                     opts = {"nb_values": nv, "nb_word_lengths": L}; tol = 1e-6
                     eff_nv = int((n - 1) / 2.0) if nv is None else nv
                     eff_L = int((n - 1) / 2.0) if L is None else L
+                    case["case"]["eff"] = [eff_nv, eff_L]
+                    # the same value from the Lean model (BlackIt.Gsl.divEnsemble on the symbols the real discretize produces)
+                    if n <= 60 and eff_L <= 8:
+                        rs = []
+                        for i in range(d):
+                            obs = GslDivLoss.discretize(real[:, i], eff_nv, np.min(real[:, i]), np.max(real[:, i])).tolist()
+                            sims = [GslDivLoss.discretize(sim[j, :, i], eff_nv, np.min(sim[j, :, i]), np.max(sim[j, :, i])).tolist() for j in range(e)]
+                            rs.append(f"loss.gsl {eff_L} {eff_nv} {n} {e} " + " ".join(f"{len(x)} " + " ".join(map(str, x)) for x in sims) + f" {len(obs)} " + " ".join(map(str, obs)))
+                        model_lean.append(("GslDivLoss.compute_loss != BlackIt.Gsl.divEnsemble (binary64 instance)", got, [1.0 / d] * d if weights is None else list(weights), case, rs))
                     if not close(got, want, tol, 1e-9):
                         if eff_nv >= 10 or eff_L >= 16:
                             chk.fail(f"GSL-div with {eff_nv} symbols and word lengths up to {eff_L} = {got!r}, documented definition (words as tuples) = {want!r}", case,
@@ -131,6 +147,10 @@ def run(chk: Check):
                     got = float(LikelihoodLoss(h=h).compute_loss(sim, real))
                     want = ref.likelihood(sim, real, h)
                     opts = {"h": h}; tol = 1e-6
+                    rule = {"silverman": 1, "scott": 2}.get(h, 0)
+                    model_lean.append(("LikelihoodLoss.compute_loss != BlackIt.Loss.likelihood (binary64 instance)", got, [1.0], case,
+                                       [f"loss.likelihood {rule} {f2h(float(h) if rule == 0 else 0.0)} {e} {ns} {ns} {d} " + " ".join(f2h(x) for x in sim.reshape(-1)) + " "
+                                        + " ".join(f2h(x) for x in real.reshape(-1))]))
             except Exception as ex:  # noqa: BLE001
                 chk.fail(f"{which} raised {type(ex).__name__}: {str(ex)[:100]} on admissible input", case)
                 continue
@@ -139,6 +159,22 @@ def run(chk: Check):
         chk.count("numeric_tolerance_cases")
         if not close(got, want, tol, 1e-9):
             chk.fail(f"{which} {case['case']['options']}: implementation {got!r}, documented definition {want!r}", case)
+    # Fourier, GSL-div, likelihood: implementation vs the executable Lean model, coordinate by coordinate (tolerance: sums are ordered differently)
+    flat = [r for *_, rs in model_lean for r in rs]
+    answers = iter(lean_run(flat)) if flat else iter([])
+    for what, got, ws, case, rs in model_lean:
+        raw = [next(answers) for _ in rs]
+        if "bad-op" in raw:
+            chk.disagree(what + ": the model rejected the request", case); continue
+        vals = [h2f(a) for a in raw]
+        model = math.fsum(w * v for w, v in zip(ws, vals))
+        chk.count("vs_lean_model:" + what.split(".")[0])
+        if case["case"].get("loss") == "gsl" and not close(got, model, 1e-9, 1e-12):
+            eff = case["case"].get("eff", [99, 99])
+            if eff[0] >= 10 or eff[1] >= 16:
+                continue      # base-10 packing artefacts at >= 10 symbols / long words are the recorded finding (the model packs exactly like the code, but in unbounded integers)
+        if not (close(got, model, 1e-9, 1e-12) or (got != got and model != model)):
+            chk.disagree(what, {"impl": got, "model": model, "per_coordinate_model": vals, **case})
     # discrete intermediates of GSL-div: exact, against the Lean model
     reqs, metas = [], []
     for _ in range(150 if chk.tier == "quick" else 2000):
